@@ -124,6 +124,7 @@ type Arrival struct {
 	AtMs     int64
 	Kind     string // registry | token
 	Host     string
+	Scheme   string // of the request URL
 	Method   string
 	Path     string
 	Auth     string // Authorization header
@@ -246,7 +247,7 @@ func (w *World) RoundTrip(req *http.Request) (*http.Response, error) {
 	w.mu.Lock()
 	defer w.mu.Unlock()
 	w.seq++
-	a := &Arrival{Seq: w.seq, AtMs: w.nowMs(), Host: req.URL.Host, Method: req.Method, Path: req.URL.Path, Auth: req.Header.Get("Authorization"),
+	a := &Arrival{Seq: w.seq, AtMs: w.nowMs(), Host: req.URL.Host, Scheme: req.URL.Scheme, Method: req.Method, Path: req.URL.Path, Auth: req.Header.Get("Authorization"),
 		Body: string(body), Query: req.URL.Query(), Call: -1}
 	fmt.Sscanf(req.Header.Get("X-Call"), "%d", &a.Call)
 	var raw bytes.Buffer
@@ -271,7 +272,7 @@ func (w *World) RoundTrip(req *http.Request) (*http.Response, error) {
 		a.Kind = "registry"
 		return w.registry(h, req, a), nil
 	}
-	if hs, ok := w.byRealm[req.URL.Host]; ok && req.URL.Path == "/token" {
+	if hs, ok := w.byRealm[req.URL.Host]; ok && req.URL.Path == "/token" && req.URL.Scheme != "http" {
 		a.Kind = "token"
 		return w.tokenServer(hs, req, a, string(body)), nil
 	}
@@ -390,7 +391,14 @@ func (w *World) tokenServer(hs []*HostSpec, req *http.Request, a *Arrival, body 
 		parts := strings.SplitN(h.TokenFault, ":", 3)
 		fmt.Sscanf(parts[1], "%d", &a.Status)
 		hdr := http.Header{}
-		hdr.Set("Location", "https://"+strings.ReplaceAll(parts[2], "REALM", strings.Split(req.URL.Host, ":")[0])+"/token")
+		target := strings.ReplaceAll(parts[2], "REALM", strings.Split(req.URL.Host, ":")[0])
+		if strings.HasPrefix(target, "plain-") {
+			// the same host name over plaintext http: another endpoint than the https realm
+			target = "http://" + strings.TrimPrefix(target, "plain-") + "/token"
+		} else {
+			target = "https://" + target + "/token"
+		}
+		hdr.Set("Location", target)
 		return resp(req, a.Status, hdr, "")
 	}
 	if strings.HasPrefix(h.TokenFault, "status:") {
